@@ -120,6 +120,8 @@ def play_history(rng, song, kind="plain"):
             h += [{"e": "SetHooks"}, {"e": "Load"}, {"e": "Reset"}]
         h.append({"e": "Load"})
         if hooks_when in ("after",): h.append({"e": "SetHooks"})
+        if rng.random() < 0.15:
+            h.append({"e": "Reset"})          # opn2_reset between load and play: hooks, loop settings and the song stay as they are
         if rng.random() < 0.2:
             # the count is changed on the loaded song and brought into force by a rewind (possibly after some playing)
             n = rng.choice([-1, 0, 1, 2, 3, 4])
@@ -190,7 +192,11 @@ def ref_times(song):
     return sorted(times)
 
 def seek_history(rng, song):
-    h = [{"e": "Init", "rate": 44100, "chips": 2}, song, {"e": "SetHooks"}, {"e": "Load"}]
+    h = [{"e": "Init", "rate": 44100, "chips": 2}, song, {"e": "SetHooks"}]
+    if rng.random() < 0.3:
+        # a tempo multiplier: seek targets, reported positions and delivery times stay in song time
+        m = rng.choice([(2, 1), (1, 2), (3, 2), (4, 5)]); h.append({"e": "SetTempo", "num": m[0], "den": m[1]})
+    h.append({"e": "Load"})
     ts = ref_times(song)
     last = ts[-1] if ts else 0
     cands = [0] + ts + [(a + b) // 2 for a, b in zip(ts, ts[1:])] + [last + 500000, last + 1000000]
